@@ -1,0 +1,11 @@
+//go:build verif
+
+package commands
+
+// Machine-checked contracts for /verif (comment-only; compiled only with -tags verif).
+
+//@ func (*DiffCommand).Execute
+//@ props C13 C15
+//@ ensures result == nil ==> vs_called("FilterIgnores") && (vs_called("ReportCompatibility") || vs_called("ReportAllDiffs"))
+//@ ensures result == nil && vs_called("ReportCompatibility") ==> vs_callResult[error]("ReportCompatibility", 2) == nil && vs_same(*vs_callArg[*diff.SpecDifferences]("ReportCompatibility", 0), vs_callResult[diff.SpecDifferences]("FilterIgnores", 0))
+//@ ensures result == nil && vs_called("ReportAllDiffs") ==> vs_callResult[error]("ReportAllDiffs", 2) == nil && vs_same(vs_callArg[diff.SpecDifferences]("ReportAllDiffs", 0), vs_callResult[diff.SpecDifferences]("FilterIgnores", 0))
